@@ -127,6 +127,45 @@ def hex_of_bytes(I, elems, tag='hex'):
     return s
 
 
+def _go_format_concrete(I, parts, args):
+    """Formatting when every argument is a concrete int / string / bool (the common fmt verbs)."""
+    out, ai = [], 0
+    for kind, p in parts:
+        if kind == 'lit':
+            out.append(p)
+            continue
+        if ai >= len(args):
+            return None
+        a = args[ai]
+        ai += 1
+        val = a.val if isinstance(a, Iface) else a
+        val = I.ctx.force(val)
+        verb, flags = p[-1], p[:-1]
+        if isinstance(val, bool):
+            if verb in 'tv' and flags == '':
+                out.append('true' if val else 'false')
+                continue
+            return None
+        if isinstance(val, int):
+            if verb in 'dv' and (flags == '' or (flags.startswith('0') and flags[1:].isdigit()) or flags.isdigit()):
+                out.append(('%' + flags + 'd') % val)
+                continue
+            if verb in 'xX' and (flags == '' or (flags.startswith('0') and flags[1:].isdigit())) and val >= 0:
+                out.append(('%' + flags + verb) % val)
+                continue
+            return None
+        if isinstance(val, str):
+            if verb in 'sv' and flags == '':
+                out.append(val)
+                continue
+            if verb == 'q' and flags == '' and all(32 <= ord(c) < 127 and c not in '"\\' for c in val):
+                out.append('"' + val + '"')
+                continue
+            return None
+        return None
+    return ''.join(out)
+
+
 def sprintf(I, fmt, args):
     ctx = I.ctx
     if not isinstance(fmt, str):
@@ -134,6 +173,9 @@ def sprintf(I, fmt, args):
     parts = _parse_format(fmt)
     if parts is None:
         return None
+    r0 = _go_format_concrete(I, parts, args)
+    if r0 is not None:
+        return r0
     res = []
     ai = 0
     for kind, p in parts:
@@ -216,8 +258,29 @@ def fmt_sprint(I, args, ins):
     return I.ctx.fresh_str('sprint')
 
 
-@stub('fmt.Fprintf', 'fmt.Fprintln', 'fmt.Fprint')
+@stub('fmt.Fprintf')
 def fmt_fprintf(I, args, ins):
+    ctx = I.ctx
+    w = ctx.force(args[0])
+    fargs = _fmt_args(I, args[2])
+    s = globals()['sprintf'](I, args[1], fargs)
+    if s is None:
+        s = ctx.fresh_str('fprintf')
+    if isinstance(w, Iface) and w.dyn in ('*bytes.Buffer', '*strings.Builder'):
+        _buf(I, w.val).append(s)
+        return TupleV((I.length(s), None))
+    if isinstance(w, Iface):
+        try:
+            bs = I.make_slice(I.string_bytes(s)) if isinstance(s, str) else SymBytes(s)
+            r = I.invoke(w, 'Write', [bs], ins)
+            return TupleV((r[0], r[1]))
+        except Inconclusive:
+            pass
+    return TupleV((0, None))
+
+
+@stub('fmt.Fprintln', 'fmt.Fprint')
+def fmt_fprint(I, args, ins):
     return TupleV((0, None))
 
 
